@@ -7,6 +7,7 @@ pub mod c07;
 pub mod c08;
 pub mod c09;
 pub mod c10;
+pub mod c14;
 
 use crate::Prop;
 
@@ -21,6 +22,7 @@ pub fn lookup(id: &str) -> Option<Box<dyn Prop>> {
         "C08" => Box::new(c08::C08),
         "C09" => Box::new(c09::C09),
         "C10" => Box::new(c10::C10),
+        "C14" => Box::new(c14::C14),
         _ => return None,
     })
 }
